@@ -40,16 +40,19 @@ type fieldDesc struct {
 }
 
 type scene struct {
-	CPU    float64     `json:"cubes_per_unit"`
-	Cutoff float64     `json:"cutoff"`
-	Anchor [3]int      `json:"anchor_block"`
-	Fields []fieldDesc `json:"fields"`
-	Attrs  []string    `json:"attrs"`
+	CPU     float64     `json:"cubes_per_unit"`
+	Cutoff  float64     `json:"cutoff"`
+	Anchor  [3]int      `json:"anchor_block"`
+	Fields  []fieldDesc `json:"fields"`
+	Attrs   []string    `json:"attrs"`
+	Aligned bool        `json:"aligned,omitempty"`
 	// derived
 	blocksPerAxis [3]int
 	blocks        int
 	latticeOnly   map[string]bool
 	overlap       bool
+	alignedBounds int
+	exactBounds   int // canvas bounds that are exactly a multiple of the block size
 }
 
 var attrPalette = []string{modeling.PositionAttribute, "density", "aux"}
@@ -57,7 +60,16 @@ var attrPalette = []string{modeling.PositionAttribute, "density", "aux"}
 // genScene draws a scene whose union of blocks times attributes stays within budget.
 func genScene(r *rand.Rand, budget int, maxFields int) *scene {
 	for {
-		sc := &scene{CPU: []float64{4, 5, 8, 10, 16}[r.Intn(5)], Cutoff: []float64{0, 0, -0.05, -0.2}[r.Intn(4)]}
+		// cutoffs above 0 too: C10 is about equality, not closedness (unwritten cells hold 0 and
+		// are then "inside")
+		sc := &scene{CPU: []float64{4, 5, 8, 10, 16}[r.Intn(5)], Cutoff: []float64{0, 0, 0, -0.05, -0.2, 0.3, 0.5}[r.Intn(7)]}
+		// aligned scenes: the canvas bounds of the domains (floor(min*cpu)-1, ceil(max*cpu)+1)
+		// are placed exactly on, one below or one above a multiple of the block size
+		sc.Aligned = r.Intn(2) == 0
+		if sc.Aligned && r.Intn(4) > 0 {
+			// a cutoff above 0 puts a surface into the outermost cell layer of every written region
+			sc.Cutoff = []float64{0.3, 0.5}[r.Intn(2)]
+		}
 		for a := 0; a < 3; a++ {
 			sc.Anchor[a] = r.Intn(4) - 1 // block boundary at Anchor*100 cells; -1,0 give negative coordinates
 		}
@@ -115,6 +127,28 @@ func genScene(r *rand.Rand, budget int, maxFields int) *scene {
 					fd.Hi[a] = lo + float64(8+r.Intn(24)) + jh
 				}
 			}
+			if sc.Aligned && (f == 0 || r.Intn(3) > 0) {
+				for a := 0; a < 3; a++ {
+					delta := []float64{0, 0, -1, 1}[r.Intn(4)]
+					switch x := r.Intn(20); {
+					case x < 8:
+						// upper canvas bound ceil(hi)+1 = 100k+delta (delta = 0: the sample range of
+						// block k is empty, the block is still allocated)
+						k := math.Ceil(fd.Hi[a] / blockCells)
+						nh := k*blockCells + delta - 1.5
+						fd.Lo[a] += nh - fd.Hi[a]
+						fd.Hi[a] = nh
+						sc.alignedBounds++
+					case x < 13:
+						// lower canvas bound floor(lo)-1 = 100k+delta
+						k := math.Floor(fd.Lo[a] / blockCells)
+						nl := k*blockCells + delta + 1.5
+						fd.Hi[a] += nl - fd.Lo[a]
+						fd.Lo[a] = nl
+						sc.alignedBounds++
+					}
+				}
+			}
 			// attributes of this field: non-empty subset; field 0 always carries Position
 			for i, a := range sc.Attrs {
 				if (i == 0 && f == 0) || r.Intn(10) < 7 {
@@ -168,6 +202,7 @@ func (sc *scene) derive() {
 	var lo, hi [3]int
 	first := true
 	sc.latticeOnly = map[string]bool{}
+	sc.exactBounds = 0
 	cnt := map[string]int{}
 	for i := range sc.Fields {
 		fd := &sc.Fields[i]
@@ -176,8 +211,12 @@ func (sc *scene) derive() {
 		mins := [3]float64{mn.X(), mn.Y(), mn.Z()}
 		maxs := [3]float64{mx.X(), mx.Y(), mx.Z()}
 		for a := 0; a < 3; a++ {
-			l := int(math.Floor(float64(int(math.Floor(mins[a]*sc.CPU))-1) / blockCells))
-			h := int(math.Floor(float64(int(math.Ceil(maxs[a]*sc.CPU))+1) / blockCells))
+			cl, ch := int(math.Floor(mins[a]*sc.CPU))-1, int(math.Ceil(maxs[a]*sc.CPU))+1
+			if cl%blockCells == 0 || ch%blockCells == 0 {
+				sc.exactBounds++
+			}
+			l := int(math.Floor(float64(cl) / blockCells))
+			h := int(math.Floor(float64(ch) / blockCells))
 			fd.blocks[a] = [2]int{l, h}
 			if first || l < lo[a] {
 				lo[a] = l
@@ -823,9 +862,150 @@ func manyBlocks(c *run.Ctx) run.Result {
 	return res
 }
 
+// historyCases: multi-step histories on ONE canvas (after the many-blocks cases).
+func historyCases(tier string) int {
+	if tier == "thorough" {
+		return 80
+	}
+	return 8
+}
+
+type histStep struct {
+	Op     string  `json:"op"` // AddField | AddFieldParallel | AddFieldParallel2 | march
+	Field  int     `json:"field,omitempty"`
+	Cutoff float64 `json:"cutoff,omitempty"`
+}
+
+// fieldHistory: 4-7 steps on one canvas mixing the three adders and marches at the same and
+// at different cutoffs (fields touch existing blocks and create new ones). At every march
+// step: MarchParallel and March on the history canvas, and March on a FRESH canvas filled
+// sequentially with the same fields in the same order; all three must be the same mesh.
+func fieldHistory(c *run.Ctx) run.Result {
+	var res run.Result
+	r := c.Rng
+	sc := genScene(r, 4, 4)
+	c0 := sc.Cutoff
+	alt := []float64{0, -0.2, 0.3, 0.5}[r.Intn(4)]
+	adders := []string{"AddField", "AddFieldParallel", "AddFieldParallel2"}
+	next := 0
+	add := func() histStep {
+		st := histStep{Op: adders[r.Intn(3)], Field: next % len(sc.Fields)}
+		next++
+		return st
+	}
+	// skeleton: march, add into the canvas, march again at the SAME cutoff
+	steps := []histStep{add(), {Op: "march", Cutoff: c0}, add(), {Op: "march", Cutoff: c0}}
+	if r.Intn(2) == 0 {
+		steps[2].Op = "AddField" // the sequential adder between two parallel marches
+	}
+	for extra := r.Intn(4); extra > 0; extra-- {
+		if steps[len(steps)-1].Op == "march" && r.Intn(5) > 0 {
+			steps = append(steps, add())
+		} else {
+			steps = append(steps, histStep{Op: "march", Cutoff: []float64{c0, c0, alt}[r.Intn(3)]})
+		}
+	}
+	if steps[len(steps)-1].Op != "march" {
+		steps = append(steps, histStep{Op: "march", Cutoff: c0})
+	}
+	wit := map[string]any{"scene": sc, "steps": steps}
+	var ops []string
+	for _, st := range steps {
+		ops = append(ops, st.Op)
+	}
+	res.Sig = "history/" + strings.Join(ops, ">") + "/" + sc.sig()
+	res.Sample = wit
+	c.Note("history " + res.Sig)
+	input := fmt.Sprintf("history of %d steps on one canvas (%s)", len(steps), strings.Join(ops, ", "))
+	attr := modeling.PositionAttribute
+
+	H := marching.NewMarchingCanvas(sc.CPU)
+	var added []int
+	marches, tris := 0, 0
+	for si, st := range steps {
+		if st.Op != "march" {
+			f := sc.field(st.Field, nil)
+			p := run.Try(func() {
+				switch st.Op {
+				case "AddField":
+					H.AddField(f)
+				case "AddFieldParallel":
+					H.AddFieldParallel(f)
+				default:
+					H.AddFieldParallel2(f)
+				}
+			})
+			if p != nil {
+				res.Violate("runtime-panic", "MarchingCanvas."+st.Op, input, fmt.Sprintf("step %d: %s", si, p.Value)+"\n"+p.Stack, wit)
+				return res
+			}
+			added = append(added, st.Field)
+			res.SetAdd("history_adders", st.Op)
+			continue
+		}
+		// Position must exist on the canvas
+		has := false
+		for _, fi := range added {
+			for _, a := range sc.Fields[fi].Attrs {
+				if a == attr {
+					has = true
+				}
+			}
+		}
+		if !has {
+			continue
+		}
+		fresh := marching.NewMarchingCanvas(sc.CPU)
+		if p := run.Try(func() {
+			for _, fi := range added {
+				fresh.AddField(sc.field(fi, nil))
+			}
+		}); p != nil {
+			res.Inconclusive = "reference: AddField on the fresh canvas panicked: " + p.Value
+			return res
+		}
+		c.Note(fmt.Sprintf("step %d: march at %g", si, st.Cutoff))
+		ref, p := march(fresh, attr, st.Cutoff, false)
+		if p != nil || ref.err != "" {
+			res.Inconclusive = fmt.Sprintf("reference: March of the fresh canvas unusable (panic %v, err %q)", p != nil, ref.err)
+			return res
+		}
+		tight := sc.latticeOnly[attr] && st.Cutoff == 0
+		mp, pp := march(H, attr, st.Cutoff, true)
+		ms, ps := march(H, attr, st.Cutoff, false)
+		where := fmt.Sprintf("step %d (march at cutoff %g after %d add(s))", si, st.Cutoff, len(added))
+		if pp != nil {
+			res.Violate("runtime-panic", "MarchingCanvas.MarchOnAttributeParallel", input, where+": "+pp.Value+"\n"+pp.Stack, wit)
+		} else if d := ref.diff(mp, tight); d != "" {
+			res.Violate("march-mismatch", "MarchingCanvas.MarchOnAttributeParallel", input,
+				where+": MarchParallel of the history canvas differs from March of a fresh canvas filled sequentially with the same fields (reference): "+d, wit)
+		}
+		if ps != nil {
+			res.Violate("field-accumulate-mismatch", "MarchingCanvas history (mixed adders, sequential March)", input, where+": March of the fresh canvas succeeds, March of the history canvas panics: "+ps.Value, wit)
+		} else if d := ref.diff(ms, tight); d != "" {
+			res.Violate("field-accumulate-mismatch", "MarchingCanvas history (mixed adders, sequential March)", input,
+				where+": March of the history canvas differs from March of a fresh canvas filled sequentially with the same fields (reference): "+d, wit)
+		}
+		marches++
+		tris += ref.n
+		res.Count("history_march_steps", 1)
+		res.Count("march_parallel_compared", 1)
+		res.SetAdd("field_cutoffs", fmt.Sprint(st.Cutoff))
+	}
+	res.Count("history_cases", 1)
+	res.Count("history_steps", int64(len(steps)))
+	res.Count("field_triangles_compared", int64(tris))
+	res.SetAdd("gomaxprocs", fmt.Sprint(runtime.GOMAXPROCS(0)))
+	res.Nontrivial = marches >= 2 && tris > 0
+	return res
+}
+
 func fieldCase(c *run.Ctx) run.Result {
 	if c.Case < manyBlockCases(c.Tier) {
 		return manyBlocks(c)
+	}
+	if c.Case < manyBlockCases(c.Tier)+historyCases(c.Tier) {
+		return fieldHistory(c)
 	}
 	var res run.Result
 	r := c.Rng
@@ -954,6 +1134,11 @@ func fieldCase(c *run.Ctx) run.Result {
 			res.Count("field_delayed_first_evaluation", 1)
 		}
 	}
+	if sc.Aligned {
+		res.Count("field_aligned_scenes", 1)
+	}
+	res.Count("field_exact_block_bounds", int64(sc.exactBounds))
+	res.SetAdd("field_cutoffs", fmt.Sprint(sc.Cutoff))
 	res.Count("field_blocks", int64(sc.blocks*len(sc.Attrs)))
 	for _, f := range sc.Fields {
 		if len(f.Attrs) > 1 {
